@@ -423,3 +423,149 @@ func Tamper(t *rapid.T, text, kind string) (out, detail string) {
 	}
 	return text, ""
 }
+
+// ---------------------------------------------------------------- large manifests
+
+// BigInfo describes what Inflate added.
+type BigInfo struct {
+	Streams  int    // number of long streams added
+	Seed     uint64 // everything in the long streams is a function of Seed and Blocks
+	Blocks   []int  // locators per long stream
+	MaxLine  int    // length in bytes of the longest stream line of the manifest
+	Lines64  int    // stream lines longer than 64 KiB
+	Lines128 int    // stream lines longer than 128 KiB
+}
+
+// Labels returns histogram labels for the sizes reached.
+func (b BigInfo) Labels() []string {
+	if b.Streams == 0 {
+		return nil
+	}
+	l := []string{"big:manifest", fmt.Sprintf("big:long-streams=%d", b.Streams)}
+	if b.Lines64 > 0 {
+		l = append(l, "big:line>64KiB")
+	}
+	if b.Lines128 > 0 {
+		l = append(l, "big:line>128KiB")
+	}
+	if b.Lines64 >= 2 {
+		l = append(l, "big:several-lines>64KiB")
+	}
+	if b.MaxLine > 256<<10 {
+		l = append(l, "big:line>256KiB")
+	}
+	return l
+}
+
+func (b BigInfo) String() string {
+	return fmt.Sprintf("long streams: %d (seed %#x, locators per stream %v, longest line %d bytes)", b.Streams, b.Seed, b.Blocks, b.MaxLine)
+}
+
+type splitmix uint64
+
+func (s *splitmix) next() uint64 {
+	*s += 0x9e3779b97f4a7c15
+	z := uint64(*s)
+	z = (z ^ (z >> 30)) * 0xbf58476d1ce4e5b9
+	z = (z ^ (z >> 27)) * 0x94d049bb133111eb
+	return z ^ (z >> 31)
+}
+
+// Inflate inserts 1-3 long streams into m: each is one stream line with
+// hundreds to thousands of signed locators, so that the line is longer than
+// 64 KiB (mostly) or 128 KiB (often). Stream names, block sizes (1-3 digits)
+// and the position among the other streams vary, so that token boundaries fall
+// on every offset relative to any fixed buffer size. The content of the long
+// streams is a deterministic function of a drawn seed and the drawn counts
+// (drawing ~10^5 hex digits one by one would cost more than the test itself).
+// With allSigned every added locator carries exactly one +A hint; otherwise
+// about one in eight is unsigned, carries another hint, or a second signature.
+func Inflate(t *rapid.T, m *mgen.Manifest, allSigned bool) BigInfo {
+	info := BigInfo{Seed: rapid.Uint64().Draw(t, "bigSeed")}
+	rng := splitmix(info.Seed)
+	info.Streams = rapid.SampledFrom([]int{1, 1, 2, 2, 3}).Draw(t, "bigStreams")
+	hex := func(n int) string {
+		var sb strings.Builder
+		for sb.Len() < n {
+			fmt.Fprintf(&sb, "%016x", rng.next())
+		}
+		return sb.String()[:n]
+	}
+	for k := 0; k < info.Streams; k++ {
+		// a locator token is about 87 bytes: 753 make 64 KiB, 1507 make 128 KiB
+		var nblk int
+		switch rapid.IntRange(0, 9).Draw(t, "bigBand") {
+		case 0:
+			nblk = rapid.IntRange(600, 745).Draw(t, "bigBlocks") // just below 64 KiB
+		case 1, 2:
+			nblk = rapid.IntRange(746, 790).Draw(t, "bigBlocks") // around 64 KiB
+		case 3, 4:
+			nblk = rapid.IntRange(791, 1480).Draw(t, "bigBlocks")
+		case 5, 6:
+			nblk = rapid.IntRange(1481, 1560).Draw(t, "bigBlocks") // around 128 KiB
+		case 7, 8:
+			nblk = rapid.IntRange(1561, 2400).Draw(t, "bigBlocks")
+		default:
+			nblk = rapid.IntRange(2401, 3300).Draw(t, "bigBlocks") // beyond 256 KiB
+		}
+		info.Blocks = append(info.Blocks, nblk)
+		name := fmt.Sprintf("./big%d", k) + strings.Repeat("x", rapid.IntRange(0, 90).Draw(t, "bigNamePad"))
+		s := mgen.Stream{Name: name, Esc: name}
+		var total int64
+		for i := 0; i < nblk; i++ {
+			r := rng.next()
+			n := int(r % 10)
+			switch (r >> 8) % 4 {
+			case 1:
+				n = int(r>>16) % 100
+			case 2, 3:
+				n = int(r>>16) % 400
+			}
+			data := []byte(strings.Repeat(fmt.Sprintf("%x.", r), n/8+1)[:n])
+			b := mgen.Block{Data: data}
+			sig := "+A" + hex(40) + "@" + "6" + hex(7)
+			if allSigned {
+				b.Hints = sig
+			} else {
+				switch (r >> 40) % 32 {
+				case 0:
+					b.Hints = ""
+				case 1:
+					b.Hints = "+K@zzzzz"
+				case 2:
+					b.Hints = sig + "+Zbig"
+				case 3:
+					b.Hints = sig + "+A" + hex(40) + "@" + "7" + hex(7)
+				default:
+					b.Hints = sig
+				}
+			}
+			s.Blocks = append(s.Blocks, b)
+			total += int64(n)
+		}
+		half := total / 2
+		s.Files = []mgen.FileTok{{Pos: 0, Size: half, Name: "bigfile.a", Esc: "bigfile.a"}, {Pos: half, Size: total - half, Name: "bigfile.b", Esc: "bigfile.b"}}
+		pos := rapid.IntRange(0, len(m.Streams)).Draw(t, "bigPos")
+		m.Streams = append(m.Streams[:pos], append([]mgen.Stream{s}, m.Streams[pos:]...)...)
+	}
+	for _, line := range strings.SplitAfter(m.Text(), "\n") {
+		if len(line) > info.MaxLine {
+			info.MaxLine = len(line)
+		}
+		if len(line) > 64<<10 {
+			info.Lines64++
+		}
+		if len(line) > 128<<10 {
+			info.Lines128++
+		}
+	}
+	return info
+}
+
+// Abbrev shortens a long manifest for failure messages and samples.
+func Abbrev(s string) string {
+	if len(s) <= 1500 {
+		return s
+	}
+	return fmt.Sprintf("%s …[%d bytes, reference PDH %s]… %s", s[:700], len(s), ref.PDH(s), s[len(s)-500:])
+}
